@@ -27,3 +27,55 @@ Theorem C15_pop_advances_entry : forall nxt c now h eid e,
   /\ (forall eid', eid' <> eid -> arena_get (cr_arena c') eid' = arena_get (cr_arena c) eid').
 Proof. exact pop_advances_entry. Qed.
 Print Assumptions C15_pop_advances_entry.
+
+(* ---- full strength: invariants and the stream over whole histories (Proofs/CronInv.v) ---- *)
+From GK.Proofs Require Import CronInv.
+From Coq Require Import Permutation.
+
+(* after every history the store holds exactly one pending occurrence per entry, and nothing else *)
+Theorem C15_one_pending_per_entry : forall nxt ops,
+  let c := crun nxt cron_empty ops in
+  Permutation (map pt_key (cr_pending c)) (map fst (cr_entries c)) /\ NoDup (map fst (cr_entries c)).
+Proof. intros nxt ops c. split; [exact (i_perm nxt c (inv15_history_empty nxt ops)) | exact (i_nodup_keys nxt c (inv15_history_empty nxt ops))]. Qed.
+Print Assumptions C15_one_pending_per_entry.
+Theorem C15_invariant_every_history : forall nxt ops, Inv15 nxt (crun nxt cron_empty ops).
+Proof. exact inv15_history_empty. Qed.
+Print Assumptions C15_invariant_every_history.
+
+(* one Pop, under the invariant: the head was made from the occurrence its entry's cursor points at; the
+   cursor moves by exactly one occurrence; the only pending task of that entry is the new one made from the
+   next occurrence; nothing else changes *)
+Theorem C15_pop_stream : forall nxt c now t,
+  Inv15 nxt c -> snd (pop nxt c now) = Some t ->
+  exists h eid e,
+    pt_min None (cr_pending c) = Some h /\ t = pt_task h /\ In (pt_key h, eid) (cr_entries c)
+    /\ arena_get (cr_arena c) eid = Some e /\ pt_occ h = e_prev e
+    /\ let c' := fst (pop nxt c now) in
+       (exists nx, In nx (cr_pending c') /\ pt_key nx = pt_key h /\ pt_occ nx = nxt eid (e_prev e)
+                   /\ pt_ins nx = S (cr_ins c)
+                   /\ forall q, In q (cr_pending c') -> pt_key q = pt_key h -> q = nx)
+       /\ ~ In h (cr_pending c')
+       /\ arena_get (cr_arena c') eid = Some (mkEntry (e_row e) (nxt eid (e_prev e)))
+       /\ (forall q, pt_key q <> pt_key h -> In q (cr_pending c') <-> In q (cr_pending c))
+       /\ (forall eid', eid' <> eid -> arena_get (cr_arena c') eid' = arena_get (cr_arena c) eid')
+       /\ cr_entries c' = cr_entries c.
+Proof. exact pop_stream. Qed.
+Print Assumptions C15_pop_stream.
+
+(* THE property: along any run that keeps entry (k, eid) — Pops of anything, Peeks, timer operations,
+   accepted or rejected edits of other entries — the tasks handed out for it are made from exactly
+   c0, nxt c0, nxt (nxt c0), ... in this order: none skipped, none repeated *)
+Theorem C15_stream : forall nxt k eid ops c e,
+  Inv15 nxt c -> In (k, eid) (cr_entries c) -> arena_get (cr_arena c) eid = Some e -> keeps_run nxt c k ops ->
+  let served := filter (fun h => ckey_eqb (pt_key h) k) (popped nxt c ops) in
+  map pt_occ served = iter_occ (nxt eid) (e_prev e) (List.length served)
+  /\ In (k, eid) (cr_entries (crun nxt c ops))
+  /\ arena_get (cr_arena (crun nxt c ops)) eid
+     = Some (mkEntry (e_row e) (iter_n (nxt eid) (List.length served) (e_prev e))).
+Proof. exact stream_run. Qed.
+Print Assumptions C15_stream.
+
+(* Pop reports 'exhausted' only for an empty store: the defensive branches of pop are unreachable *)
+Theorem C15_pop_exhausted_iff : forall nxt c now, Inv15 nxt c -> (snd (pop nxt c now) = None <-> cr_pending c = []).
+Proof. exact pop_some_iff. Qed.
+Print Assumptions C15_pop_exhausted_iff.
